@@ -77,17 +77,17 @@ def fixed_layouts(stmts, quick):
                 n += 1
                 # tight: no blank between the mark and the text, `     xm)`; on the statement that starts the file the
                 # continuation is the second line of the file
-                if (mk in "x1&" and i == code[0]) or not n % (181 if quick else 3):
+                if (mk in "x1&" and i == code[0]) or not n % (181 if quick else 9):
                     L.append((f"cont:{mk}:tight", i, {"split": {i: [(t, "plain")]}, "fixed_cont_char": mk, "fixed_cont_tight": True}))
                 # a trailing comment after the non-final line(s) of the statement
-                if not n % (211 if quick else 4):
+                if not n % (211 if quick else 12):
                     L.append((f"cont:{mk}:trail_comment", i, {"split": {i: [(t, "trail_comment")]}, "fixed_cont_char": mk, "comment_names": True}))
-                if not (n + 1) % (307 if quick else 6) and t + 2 < nt:
+                if not (n + 1) % (307 if quick else 16) and t + 2 < nt:
                     L.append((f"cont:{mk}:trail_comment2", i, {"split": {i: [(t, "trail_comment"), (nt - 1, "trail_comment")]},
                                                                "fixed_cont_char": mk, "comment_names": True}))
-                if not (n + 2) % (401 if quick else 6):
+                if not (n + 2) % (401 if quick else 18):
                     L.append((f"cont:{mk}:zero_col6", i, {"split": {i: [(t, "plain")]}, "fixed_cont_char": mk, "zero_col6": {i}}))
-                if not (n + 3) % (401 if quick else 6) and i + 1 < len(stmts) and stmts[i + 1].kind == "code":
+                if not (n + 3) % (401 if quick else 18) and i + 1 < len(stmts) and stmts[i + 1].kind == "code":
                     L.append((f"cont:{mk}:zero_next", i, {"split": {i: [(t, "plain")]}, "fixed_cont_char": mk, "zero_col6": {i + 1}}))
     # a trailing '!' comment that names the entities of its statement
     L.append(("trail_comment:all", None, {"trailing_comment": set(code), "comment_names": True}))
@@ -259,13 +259,20 @@ def declfile_case(combo, acc: Acc):
 
 def main(ctx):
     q = ctx.quick
-    ctx.rule = ("equivalence: 7 canonical programs rendered in fixed form x {comment line with each of C c * ! d D in every line "
-                "gap, continuation at every token boundary with each marker & 1 + $ x A, with a comment line between, labels in "
-                "columns 1-5, case, CRLF, trailing blanks} (quick: every 3rd gap / 4th boundary per marker) compared with the "
-                "free-form rendering through the exact token map; classification: every free-form layout of C13 and the same "
-                "layouts without indentation must be classified free. Non-trivial: all; distinct by (program, rendering, place).")
+    ctx.rule = ("equivalence: 8 canonical programs rendered in fixed form x {comment line with each of C c * ! d D in every line "
+                "gap, continuation at every token boundary with each marker & 1 + $ x A ! * #, with a comment line between, labels in "
+                "columns 1-5, ';' joins, a zero in column 6 of every / one initial line (also of a continued statement and of the "
+                "statement after one), continued text directly after the mark in column 7 (every boundary of the file's first "
+                "statement: the continuation is line 1 of the file), a trailing '!' comment naming the statement's identifiers "
+                "after every / one code line and after the non-final line(s) of a statement continued once or twice, case, CRLF, "
+                "trailing blanks} (quick: every 3rd gap / 4th boundary per marker, every n-th boundary for the variants) compared "
+                "with the free-form rendering through the exact token map; the names inside the trailing comments are asked too "
+                "(definition, references) and compared with the same comment in free form; classification: every free-form layout "
+                "of C13 and the same layouts without indentation must be classified free. Non-trivial: all; distinct by (program, "
+                "rendering, place).")
     ctx.assumptions = ["renderings with a line longer than 72 columns are skipped", "renderings rejected by gfortran (fixed form, "
-                       "-fd-lines-as-comments) are skipped", "same comparison rules as C13"]
+                       "-fd-lines-as-comments) are skipped", "same comparison rules as C13",
+                       "a trailing comment is cut so that the line ends by column 72; statements that leave no room for one name are skipped"]
     jobs = []
     for pname in ALL:
         stmts = layout.parse_program(ALL[pname])
